@@ -160,7 +160,7 @@ fn port_in(e: &mut Emu, port: u16) -> Result<u8, String> {
         ..Default::default()
     };
     mach::set_regs(e, &r);
-    mach::single_step(e)?;
+    mach::step_over(e, 2)?;
     Ok((mach::get_regs(e).af >> 8) as u8)
 }
 
